@@ -349,7 +349,7 @@ func Spec() *mon.Spec {
 		SpinViolation: true, Level: "exploration",
 		Rule:        "case = history of 300 assoc/dissoc (incl. nil key, replacements, absent deletes, branching from older versions) over a pool of 8..600 keys whose 32-bit hashes are constructed to share the low 5*d bits (d=0..6), collide fully, or be random; after every step the new version AND the version it was derived from are compared completely (Len, Index of every pool key, nil key, full iteration exactly-once) with a Go-map reference, older versions re-checked periodically and all versions at the end. Non-trivial = history in which a node fan-out crossed 16->17 or dropped 8->7 at some depth, or a full-hash collision group grew/shrank (inferred from the key hashes); distinct by pool shape + trace.",
 		Assumptions: []string{"node-type transitions (bitmap<->array, collision nodes) are inferred from the constructed hashes, not observed inside the package"},
-		Phases:      []mon.Phase{{Name: "history", Quick: 4000, Thorough: 60000, Run: runHistory}},
+		Phases:      []mon.Phase{{Name: "history", Quick: 4000, Thorough: 24000, Run: runHistory}},
 		Floors: map[string]int{"distinct_nontrivial": 200, "fanout_cross_17_at_root": 50, "fanout_cross_17_below_root": 50,
 			"fanout_drop_to_7": 20, "fanout_drop_to_7_after_17": 20, "full_collision_inserts": 50, "full_collision_removals": 20, "nil_key_ops": 100},
 	}
